@@ -41,7 +41,10 @@ def demo(wt, mdir):
     srcs = " ".join(glob.glob(os.path.join(mdir, "demo*.c")))
     wraps = sorted(set(re.findall(r"__wrap_(\w+)", " ".join(open(f, errors="replace").read() for f in srcs.split()))))
     wl = (" -Wl," + ",".join("--wrap=" + w for w in wraps)) if wraps else ""
-    rc, out = sh("cc -g -I include -I src -I src/loaders %s _build/libxmp.a -lm -lpthread%s -o _build/seed_demo" % (srcs, wl), cwd=wt)
+    cmd = "cc -g -I include -I src -I src/loaders %s _build/libxmp.a -lm -lpthread%s -o _build/seed_demo"
+    rc, out = sh(cmd % (srcs, ""), cwd=wt)
+    if rc != 0 and "__real_" in out and wl:
+        rc, out = sh(cmd % (srcs, wl), cwd=wt)
     if rc != 0:
         return 99, "demo does not compile:\n" + out
     return sh("./_build/seed_demo", cwd=wt, timeout=600)
